@@ -215,6 +215,11 @@ def post_buffer(cell, w, off, n, dim, c):
   return [(g(off + 2 + _phys(c, n, i)), [g(off + 2 + n + _phys(c, n, i) * dim + d) for d in range(dim)]) for i in range(n)]
 
 
+def cursor_of(cell, w, off):
+  """the cursor as the implementation reads it: int(history[w, off+1]) (an integer-valued, non-negative float cell)"""
+  return z3.ToInt(cell.get((w, off + 1), 0, snap=cell.a0))
+
+
 def invariant(cell, w, off, n, c, S, mingap=0.0):
   cur = cell.get((w, off + 1), 0, snap=cell.a0)
   inv = [cur == z3.ToReal(c), c >= 0, c < n, w >= 0, off >= 0]
@@ -254,6 +259,83 @@ def own_bounds(it):
   return out
 
 
+def nice_replay(sess, goal, guard, nice, rp):
+  """replay wrapper: before replaying, look for a counterexample of the same query that also satisfies the `nice`
+  constraints (well-separated sample times, moderate magnitudes, distinct values), so that the float32 re-execution on the
+  real code is meaningful; falls back to the solver's own model when no such counterexample exists"""
+  if rp is None or not nice:
+    return rp
+
+  alts = nice if nice and isinstance(nice[0], list) else [nice]
+
+  def _rp(model):
+    old = sess.s.params if False else None
+    for cand in alts:
+      try:
+        sess.s.set("timeout", 10000)
+        r, _, m = sess._check([guard, Not(goal) if is_sym(goal) else (not goal)] + [core.zbool(x) for x in cand])
+        if r == "sat":
+          model = m
+          break
+      except Exception:
+        pass
+      finally:
+        sess.s.set("timeout", sess.timeout_ms)
+    return rp(model)
+
+  return _rp
+
+
+def P(ctx, sess, name, goal, guard=True, names=None, replay=None, desc=None, nice=None):
+  return ctx.prove(sess, name, goal, guard, names=names, replay=nice_replay(sess, goal, guard, nice, replay), desc=desc)
+
+
+def nice_buffer(S, t=None, vals=()):
+  """alternatives tried in order: (1) concrete sample times i/2 and a query time on an 1/8 grid (the query becomes linear),
+  (2) times in [-8, 8] separated by >= 1/4, values separated, |value| <= 16"""
+  gen = _nice_buffer(S, t, vals)
+  conc = [tau == 0.5 * i for i, (tau, _) in enumerate(S)]
+  if t is not None:
+    conc.append(z3.Or(*[t == -0.4375 + 0.125 * k for k in range(4 * len(S) + 4)]))
+  return [gen + conc, gen]
+
+
+def _nice_buffer(S, t=None, vals=()):
+  out = []
+  for i, (tau, xs) in enumerate(S):
+    out += [tau >= -8, tau <= 8]
+    if i:
+      out.append(tau - S[i - 1][0] >= 0.25)
+    for d, x in enumerate(xs):
+      out += [x >= -16, x <= 16]
+      if i:
+        out.append(z3.Or(x - S[i - 1][1][d] >= 1, S[i - 1][1][d] - x >= 1))
+  if t is not None:
+    out += [t >= -9, t <= 9]
+  for v in vals:
+    out += [v >= 20, v <= 30]
+  return out
+
+
+def prove_split(ctx, sess, bg, name, goal, guard, names, replay, desc, split=True, nice=None):
+  """ctx.prove, optionally after case-splitting the query over its if-then-else subterms (lift_c30.leaves): every feasible
+  path becomes one ite-free query `name#k`; nonlinear (cubic) identities are only decidable quickly without Boolean structure"""
+  if not split or not is_sym(goal):
+    return P(ctx, sess, name, goal, guard, names=names, replay=replay, desc=desc, nice=nice)
+  from checks import lift_c30 as L
+
+  lv = L.leaves(z3.Not(core.zbool(goal)), [core.zbool(b) for b in bg] + [core.zbool(guard)])
+  for k, (path, f) in enumerate(lv):
+    P(ctx, sess, f"{name}#{k}", z3.Not(f), And(guard, *path), names=names, replay=replay, desc=desc, nice=nice)
+
+
+def prove_unwinding(ctx, inv, it, names, rp):
+  """loops (binary search, shift loop) finish within the unrolling bound -- proved WITHOUT the unwinding assumptions"""
+  sess0 = ctx.session(list(inv) + [core.zbool(a) for a in it.assumes])
+  obl = [o for o in it.obl if o.kind == "unwind"]
+  ctx.prove(sess0, "unwinding", And(*[Implies(o.guard, o.cond) for o in obl]) if obl else True, names=names, replay=rp, desc="a loop of the history func does not terminate within the unrolling bound (n+1 iterations)")
+
+
 def unit_find(n):
   def run(ctx):
     from mujoco_warp._src import history as H
@@ -270,13 +352,14 @@ def unit_find(n):
     ctx.reach(sess, "twin:invariant", True)
     names = {"cursor": c, "t": t, "ret": ret, **{f"tau{i}": S[i][0] for i in range(n)}}
     rp = func_replay(ctx, "find", n, 1, cell, w, off, {"t": t, "cursor": c}, ret)
-    ctx.prove(sess, "unwinding", And(*[Implies(o.guard, o.cond) for o in it.obl if o.kind == "unwind"]), names=names, replay=rp, desc="binary search does not terminate within the bound")
+    nice = nice_buffer(S, t)
+    P(ctx, sess, "unwinding", And(*[Implies(o.guard, o.cond) for o in it.obl if o.kind == "unwind"]), names=names, replay=rp, nice=nice, desc="binary search does not terminate within the bound")
     for o in it.obl:
       if o.kind == "unwind":
         pass
     sess2 = ctx.session(inv + own_bounds(it))
-    ctx.prove(sess2, "bracketing-index", cmp("==", ret, R.ref_find(S, t)), names=names, replay=rp, desc=f"_history_find_index (n={n}) does not return the index i with times[i-1] < t <= times[i] (0 / n outside the range)")
-    ctx.prove(sess2, "reads-own-buffer-only", access_region(it, cell, w, off, 2 + 2 * n), names=names, replay=rp, desc="_history_find_index reads outside its buffer")
+    P(ctx, sess2, "bracketing-index", cmp("==", ret, R.ref_find(S, t)), names=names, replay=rp, nice=nice, desc=f"_history_find_index (n={n}) does not return the index i with times[i-1] < t <= times[i] (0 / n outside the range)")
+    P(ctx, sess2, "reads-own-buffer-only", access_region(it, cell, w, off, 2 + 2 * n), names=names, replay=rp, nice=nice, desc="_history_find_index reads outside its buffer")
 
   return (f"find/n{n}", run)
 
@@ -292,7 +375,6 @@ def unit_read(n, dim):
     ctx.bound(nsample=n, dim=max(dim, 1), note="sample count / vector dim concrete; cursor, world, offset, samples, query time, interp symbolic")
     ctx.assume("cursor in [0,n), sample times strictly increasing in logical order", "interp in {0,1,2}", f"a query within {EPS} below a stored sample time (resp. within {EPS} of the oldest/newest) returns that sample (float32 time tolerance; MuJoCo compares exactly)")
     t, interp = z3.Real("t"), z3.Int("interp")
-    c = z3.Int("cursor")
     sc = {"t": t, "interp": interp}
     dd = max(dim, 1)
     if dim:
@@ -300,6 +382,7 @@ def unit_read(n, dim):
       sc.update({"dim": dim, "adr": adr})
     w, off, args, it, ret = _func_setup(fn, n, sc)
     cell = args["buf"].cell
+    c = cursor_of(cell, w, off)
     S = sym_buffer(cell, w, off, n, dd, c)
     inv = invariant(cell, w, off, n, c, S) + [interp >= 0, interp <= 2]
     if dim:
@@ -313,8 +396,10 @@ def unit_read(n, dim):
       oc = args["sensordata_out"].cell
       got = [oc.get((w, adr + d), 0) for d in range(dim)]
     rp = func_replay(ctx, "read", n, dim, cell, w, off, sc, got)
+    nice = nice_buffer(S, t)
     sess = ctx.session(bg)
     ctx.reach(sess, "twin:invariant", True)
+    prove_unwinding(ctx, inv, it, names, rp)
     for ip in (0, 1, 2):
       ctx.reach(sess, f"twin:interior-query/interp{ip}", And(interp == ip, *( [t > S[0][0] + 1, t < S[n - 1][0] - 1] if n > 1 else [])))
     # split per interpolation order and bracket (keeps each nonlinear query small)
@@ -327,11 +412,11 @@ def unit_read(n, dim):
         else:
           g = z3.And(S[seg - 1][0] < t, t <= S[seg][0])
         for d in range(dd):
-          ctx.prove(sess, f"interpolant/interp{ip}/bracket{seg}/comp{d}", cmp("==", got[d], want[d]), And(interp == ip, g), names=names, replay=rp, desc=f"{fn.key} (n={n}): value read at time t is not the {INTERP[ip]} interpolant of the bracketing samples {seg - 1},{seg}")
-    ctx.prove(sess, "reads-own-buffer-only", access_region(it, cell, w, off, 2 + n + n * dd), names=names, replay=rp, desc=f"{fn.key} reads outside its buffer")
+          prove_split(ctx, sess, bg, f"interpolant/interp{ip}/bracket{seg}/comp{d}", cmp("==", got[d], want[d]), And(interp == ip, g), names=names, replay=rp, nice=nice, desc=f"{fn.key} (n={n}): value read at time t is not the {INTERP[ip]} interpolant of the bracketing samples {seg - 1},{seg}", split=(ip >= 1 and 0 < seg < n))
+    P(ctx, sess, "reads-own-buffer-only", access_region(it, cell, w, off, 2 + n + n * dd), names=names, replay=rp, nice=nice, desc=f"{fn.key} reads outside its buffer")
     if dim:
-      ctx.prove(sess, "writes-own-sensor-slots-only", access_region(it, oc, w, adr, dim), names=names, replay=rp, desc=f"{fn.key} writes outside sensordata[adr:adr+dim]")
-      ctx.prove(sess, "returns-1", cmp("==", ret, 1), names=names, replay=rp, desc="read_vector does not report success")
+      P(ctx, sess, "writes-own-sensor-slots-only", access_region(it, oc, w, adr, dim), names=names, replay=rp, nice=nice, desc=f"{fn.key} writes outside sensordata[adr:adr+dim]")
+      P(ctx, sess, "returns-1", cmp("==", ret, 1), names=names, replay=rp, nice=nice, desc="read_vector does not report success")
 
   return (f"read_{'scalar' if dim == 0 else f'vector/dim{dim}'}/n{n}", run)
 
@@ -346,7 +431,7 @@ def unit_insert(n, dim):
     ctx.encode(fn, H._history_find_index, H._history_physical_index)
     ctx.bound(nsample=n, dim=max(dim, 1))
     ctx.assume("cursor in [0,n), sample times strictly increasing in logical order", f"an insertion within {EPS} below a stored sample time replaces that sample (float32 time tolerance; MuJoCo compares exactly)")
-    t, c = z3.Real("t"), z3.Int("cursor")
+    t = z3.Real("t")
     dd = max(dim, 1)
     if dim == 0:
       v = z3.Real("value")
@@ -356,6 +441,7 @@ def unit_insert(n, dim):
       sc = {"t": t, "dim": dim, "src_adr": sadr}
     w, off, args, it, ret = _func_setup(fn, n, sc)
     cell = args["buf_out"].cell
+    c = cursor_of(cell, w, off)
     S = sym_buffer(cell, w, off, n, dd, c)
     inv = invariant(cell, w, off, n, c, S)
     if dim == 0:
@@ -370,8 +456,10 @@ def unit_insert(n, dim):
     Spost = post_buffer(cell, w, off, n, dd, c2)
     names = {"cursor": c, "t": t, **{f"tau{i}": S[i][0] for i in range(n)}}
     rp = func_replay(ctx, "insert", n, dim, cell, w, off, sc, None, val=val)
+    nice = nice_buffer(S, t, vals=val)
     sess = ctx.session(bg)
     ctx.reach(sess, "twin:invariant", True)
+    prove_unwinding(ctx, inv, it, names, rp)
     ctx.reach(sess, "twin:append", appended)
     if n > 1:
       ctx.reach(sess, "twin:out-of-order", And(t > S[0][0], t < S[1][0]))
@@ -380,14 +468,14 @@ def unit_insert(n, dim):
       cases.append((f"at-or-before{i}", (t <= S[0][0]) if i == 0 else z3.And(S[i - 1][0] < t, t <= S[i][0])))
     cur_post = cell.get((w, off + 1), 0)
     for cname, g in cases:
-      ctx.prove(sess, f"samples/{cname}", seq_eq(Spost, S2), g, names=names, replay=rp, desc=f"{fn.key} (n={n}): after inserting (t, value) the buffer does not hold the n most recent samples in time order (case {cname})")
-      ctx.prove(sess, f"cursor/{cname}", cmp("==", cur_post, z3.ToReal(c2)), g, names=names, replay=rp, desc=f"{fn.key} (n={n}): cursor after the insertion is not (cursor+1) mod n on append / unchanged otherwise (case {cname})")
-    ctx.prove(sess, "monotone-insert-keeps-invariant", And(*[S2[i + 1][0] > S2[i][0] for i in range(n - 1)], c2 >= 0, c2 < n), True, names=names, replay=rp, desc="reference insertion does not keep the times strictly increasing")
-    ctx.prove(sess, "user-slot-kept", cmp("==", cell.get((w, off), 0), cell.get((w, off), 0, snap=cell.a0)), names=names, replay=rp, desc=f"{fn.key} modifies the user slot")
+      P(ctx, sess, f"samples/{cname}", seq_eq(Spost, S2), g, names=names, replay=rp, nice=nice, desc=f"{fn.key} (n={n}): after inserting (t, value) the buffer does not hold the n most recent samples in time order (case {cname})")
+      P(ctx, sess, f"cursor/{cname}", cmp("==", cur_post, z3.ToReal(c2)), g, names=names, replay=rp, nice=nice, desc=f"{fn.key} (n={n}): cursor after the insertion is not (cursor+1) mod n on append / unchanged otherwise (case {cname})")
+    P(ctx, sess, "monotone-insert-keeps-invariant", And(*[S2[i + 1][0] > S2[i][0] for i in range(n - 1)], c2 >= 0, c2 < n), True, names=names, replay=rp, nice=nice, desc="reference insertion does not keep the times strictly increasing")
+    P(ctx, sess, "user-slot-kept", cmp("==", cell.get((w, off), 0), cell.get((w, off), 0, snap=cell.a0)), names=names, replay=rp, nice=nice, desc=f"{fn.key} modifies the user slot")
     w2, j2 = z3.Int("w2"), z3.Int("j2")
     outside = z3.Not(z3.And(w2 == w, j2 >= off, j2 < off + 2 + n + n * dd))
-    ctx.prove(sess, "frame/outside-buffer-unchanged", cmp("==", cell.get((w2, j2), 0), cell.get((w2, j2), 0, snap=cell.a0)), outside, names=dict(names, w2=w2, j2=j2), replay=rp, desc=f"{fn.key} writes outside its own buffer")
-    ctx.prove(sess, "accesses-own-buffer-only", access_region(it, cell, w, off, 2 + n + n * dd), names=names, replay=rp, desc=f"{fn.key} accesses history outside its buffer")
+    P(ctx, sess, "frame/outside-buffer-unchanged", cmp("==", cell.get((w2, j2), 0), cell.get((w2, j2), 0, snap=cell.a0)), outside, names=dict(names, w2=w2, j2=j2), replay=rp, nice=nice, desc=f"{fn.key} writes outside its own buffer")
+    P(ctx, sess, "accesses-own-buffer-only", access_region(it, cell, w, off, 2 + n + n * dd), names=names, replay=rp, nice=nice, desc=f"{fn.key} accesses history outside its buffer")
 
   return (f"insert_{'scalar' if dim == 0 else f'vector/dim{dim}'}/n{n}", run)
 
@@ -495,9 +583,616 @@ def func_replay(ctx, what, n, dim, cell, w, off, sc, got, val=None):
   return _rp
 
 
+# ------------------------------------------------------------------------------------------------ kernels (funcs as contracts)
+
+RS = z3.Function("history_read_scalar", z3.IntSort(), z3.IntSort(), z3.IntSort(), z3.RealSort(), z3.IntSort(), z3.RealSort())
+
+
+class Calls:
+  """records the calls of summarised wp.funcs: key -> [(guard, args)]"""
+
+  def __init__(self):
+    self.rec = {}
+
+  def summary(self, key, ret=None):
+    def fn(interp, fr, args):
+      self.rec.setdefault(key, []).append((interp.active(fr), list(args)))
+      return ret(args) if ret else None
+
+    return fn
+
+  def all(self, key):
+    return self.rec.get(key, [])
+
+
+def _summaries(calls):
+  return {
+    "_history_read_scalar": calls.summary("read_scalar", lambda a: RS(*[core.to_z3(x, "real" if i == 3 else "int") for i, x in enumerate(a[1:])])),
+    "_history_read_vector": calls.summary("read_vector", lambda a: 1),
+    "_history_insert_scalar": calls.summary("insert_scalar"),
+    "_history_insert_vector": calls.summary("insert_vector"),
+  }
+
+
+def _eq_args(got, want):
+  """argument-wise equality; array arguments are compared by identity of the bound cell"""
+  out = []
+  for g, e in zip(got, want):
+    if isinstance(e, core.ArrRef):
+      out.append(isinstance(g, core.ArrRef) and g.cell is e.cell and g.prefix == e.prefix)
+    else:
+      out.append(cmp("==", g, e))
+  return And(*out)
+
+
+def _call_goals(ctx, sess, kt, calls, key, exp_guard, exp_args, names, loc, what, nice=None):
+  """exactly the expected call: some call is active iff exp_guard; an active call has the expected arguments; calls exclusive"""
+  rec = calls.all(key)
+  P(ctx, sess, f"{what}/called-iff", cmp("==", core.zbool(Or(*[g for g, _ in rec])) if rec else z3.BoolVal(False), core.zbool(exp_guard)), names=names, replay=kernel_replay(ctx, kt, loc, what), nice=nice, desc=f"{kt.kernel.key}: the history func {key} is not called exactly when the delay / interval logic requires it")
+  for i, (g, a) in enumerate(rec):
+    P(ctx, sess, f"{what}/args#{i}", _eq_args(a, exp_args), g, names=names, replay=kernel_replay(ctx, kt, loc, what), nice=nice, desc=f"{kt.kernel.key}: {key} is called with the wrong buffer / offset / sample count / time / interpolation")
+    for j in range(i + 1, len(rec)):
+      P(ctx, sess, f"{what}/exclusive#{i}-{j}", Not(And(g, rec[j][0])), names=names, replay=kernel_replay(ctx, kt, loc, what), nice=nice, desc=f"{kt.kernel.key}: {key} called twice")
+
+
+def kernel_replay(ctx, kt, loc, what):
+  """replay for kernel-level contract queries: run the REAL kernel (real funcs inside) for the model's thread and compare the
+  output cell with the reference evaluated in floats on the model's arrays"""
+
+  def _rp(model):
+    path = replay.write_spec(ctx.pid, ctx.unit, what, loc, kt.kernel, kt.args, model, kt.tid, "goal", goal="checks.c30:goal_kernel", env={"what": what})
+    return replay.run_spec(path)
+
+  return _rp
+
+
+def _np_buffer(hist_row, off, n, dim):
+  return logical_np(np.asarray(hist_row[off : off + 2 + n + n * dim], dtype=np.float64), n, dim)
+
+
+def goal_kernel(spec, pre, post):
+  """float re-evaluation of the kernel contracts on the real kernel's output (replay side)"""
+  what = spec["env"]["what"]
+  kname = spec["kernel"].split(":")[1]
+  tid = spec["tid"]
+  w = tid[0]
+  try:
+    if kname in ("_read_ctrl_delayed_kernel", "_read_ctrl_kernel"):
+      u = tid[1] if kname == "_read_ctrl_delayed_kernel" else int(spec["args"]["uid"]["scalar"])
+      hist = pre["actuator_history"][u]
+      n, ip = int(hist[0]), int(hist[1])
+      delay = float(pre["actuator_delay"][u])
+      t = float(pre["time_in"][w])
+      if kname == "_read_ctrl_kernel":
+        ii = int(spec["args"]["interp"]["scalar"])
+        ip = ip if ii < 0 else ii
+        got = float(post["result_out"][w])
+        direct = n == 0
+      else:
+        got = float(post["ctrl_out"][w, u])
+        direct = n == 0 or delay == 0.0
+      if direct:
+        want = float(pre["ctrl_in"][w, u])
+      else:
+        _, _, S = _np_buffer(pre["history_in"][w], int(pre["actuator_historyadr"][u]), n, 1)
+        want = float(R.ref_read(S, t - delay, ip, EPS)[0])
+      return lib.approx(got, want, 1e-4, 1e-5), f"{kname} thread {tid}: got {got}, reference {want}"
+    if kname == "_insert_ctrl_history_kernel":
+      u = tid[1]
+      n = int(pre["actuator_history"][u][0])
+      if n == 0:
+        return bool(np.array_equal(pre["history_out"], post["history_out"])), "nsample = 0: history must be unchanged"
+      off = int(pre["actuator_historyadr"][u])
+      _, c0, S = _np_buffer(pre["history_out"][w], off, n, 1)
+      _, c1, S1 = _np_buffer(post["history_out"][w], off, n, 1)
+      S2, app = R.ref_insert(S, float(pre["time_in"][w]), [float(pre["ctrl_in"][w, u])], EPS)
+      ok = c1 == ((c0 + 1) % n if app else c0) and all(lib.approx(a[0], b[0], 1e-5, 1e-6) and lib.approx(a[1][0], b[1][0], 1e-5, 1e-6) for a, b in zip(S1, S2))
+      return ok, f"{kname} thread {tid}: buffer after {S1} cursor {c1}; reference {S2}"
+    if kname in ("_apply_sensor_delay_kernel", "_insert_sensor_history_stage", "_read_sensor_kernel"):
+      sid = int(spec["args"]["sid"]["scalar"]) if kname == "_read_sensor_kernel" else int(pre["sensor_ids"][tid[1]])
+      hist = pre["sensor_history"][sid]
+      n, ip = int(hist[0]), int(hist[1])
+      dim, adr, off = int(pre["sensor_dim"][sid]), int(pre["sensor_adr"][sid]), int(pre["sensor_historyadr"][sid])
+      delay = float(pre["sensor_delay"][sid]) if len(pre["sensor_delay"]) > sid else 0.0
+      t = float(pre["time_in"][w])
+      if kname == "_read_sensor_kernel":
+        ii = int(spec["args"]["interp"]["scalar"])
+        ip = ip if ii < 0 else ii
+        got = [float(x) for x in post["result_out"][w][:dim]]
+        if n == 0:
+          want = [float(x) for x in pre["sensordata_in"][w][adr : adr + dim]]
+        else:
+          _, _, S = _np_buffer(pre["history_in"][w], off, n, dim)
+          want = [float(x) for x in R.ref_read(S, t - delay, ip, EPS)]
+        return all(lib.approx(a, b, 1e-4, 1e-5) for a, b in zip(got, want)), f"{kname}: got {got} reference {want}"
+      period = float(pre["sensor_interval"][sid][0])
+      if kname == "_apply_sensor_delay_kernel":
+        fresh = [float(x) for x in pre["sensordata_out"][w][adr : adr + dim]]
+        got = [float(x) for x in post["sensordata_out"][w][adr : adr + dim]]
+        if n <= 0:
+          want = fresh
+        else:
+          user, _, S = _np_buffer(pre["history_in"][w], off, n, dim)
+          if delay > 0:
+            want = [float(x) for x in R.ref_read(S, t - delay, ip, EPS)]
+          elif period > 0 and user + period > t:
+            want = [float(x) for x in R.ref_read(S, t, ip, EPS)]
+          else:
+            want = fresh
+        return all(lib.approx(a, b, 1e-4, 1e-5) for a, b in zip(got, want)), f"{kname} thread {tid}: reported {got} reference {want}"
+      if n == 0:
+        return bool(np.array_equal(pre["history_out"], post["history_out"])), "nsample = 0: history must be unchanged"
+      user, c0, S = _np_buffer(pre["history_out"][w], off, n, dim)
+      user1, c1, S1 = _np_buffer(post["history_out"][w], off, n, dim)
+      fresh = [float(x) for x in pre["sensordata_in"][w][adr : adr + dim]]
+      due = (period <= 0) or (user + period <= t)
+      if due:
+        S2, app = R.ref_insert(S, t, fresh, EPS)
+        c2 = (c0 + 1) % n if app else c0
+        u2 = user + period if period > 0 else user
+      else:
+        S2, c2, u2 = S, c0, user
+      ok = c1 == c2 and lib.approx(user1, u2, 1e-5, 1e-6) and all(lib.approx(a[0], b[0], 1e-5, 1e-6) and all(lib.approx(x, y, 1e-5, 1e-6) for x, y in zip(a[1], b[1])) for a, b in zip(S1, S2))
+      return ok, f"{kname} thread {tid}: after user {user1} cursor {c1} {S1}; reference user {u2} cursor {c2} {S2}"
+  except Exception as ex:  # model outside the representation invariant (e.g. cursor out of range): not a reproduction
+    return True, f"replay goal not evaluable on this model: {type(ex).__name__}: {ex}"
+  return True, "no replay goal"
+
+
+def goal_never(spec, pre, post):
+  return True, "-"
+
+
+def nice_kernel(cell, w, adr, ns, dim, t, ip=None, others=(), tq=None):
+  """well-conditioned counterexamples for kernel-level queries: a valid 2-sample, dim-1 buffer at [w, adr]"""
+  c = cursor_of(cell, w, adr)
+  S = sym_buffer(cell, w, adr, 2, 1, c)
+  out = [ns == 2, dim == 1, adr >= 0, adr <= 2, w <= 2, cell.shape[0] > w, cell.shape[1] >= adr + 6] + invariant(cell, w, adr, 2, c, S) + _nice_buffer(S, t)
+  if ip is not None:
+    out += [ip >= 0, ip <= 2]
+  if tq is not None:  # the delayed query time falls strictly between the two samples
+    out += [tq >= S[0][0] + 0.0625, tq <= S[1][0] - 0.0625]
+  for a in others:
+    out += [a.cell.shape[0] > w, a.cell.shape[1] >= 4]
+  return out
+
+
+def unit_kernels(ctx):
+  from mujoco_warp._src import history as H
+
+  mod = "mujoco_warp._src.history"
+  ctx.bound(unroll=3, shape_cap=6, note="one generic thread per kernel; _history_* funcs replaced by uninterpreted contracts (decided separately by the find/read/insert units)")
+  ctx.assume("thread's own array accesses in bounds (C17)", "nsample >= 0")
+  ctx.encode(H._read_ctrl_delayed_kernel, H._insert_ctrl_history_kernel, H._insert_sensor_history_stage, H._apply_sensor_delay_kernel, H._read_ctrl_kernel, H._read_sensor_kernel)
+
+  # ---- internal delayed ctrl read
+  calls = Calls()
+  k = H._read_ctrl_delayed_kernel
+  kt = lib.kernel_thread(k, alias_inout=False, cap=10, interp_kw={"summaries": _summaries(calls)})
+  w, u = kt.tid
+  hist = kt.prev("actuator_history", u)
+  ns, ip = hist.c[0], hist.c[1]
+  delay, adr = kt.pre("actuator_delay", u), kt.pre("actuator_historyadr", u)
+  tm = kt.pre("time_in", w)
+  sess = ctx.session(kt.bg + [ns >= 0])
+  ctx.reach(sess, "twin:read_ctrl_delayed/delayed", And(ns > 0, delay > 0))
+  names = {"w": w, "u": u, "nsample": ns, "interp": ip, "delay": delay}
+  loc = f"{mod}:_read_ctrl_delayed_kernel"
+  nice1 = nice_kernel(kt.cell("history_in"), w, adr, ns, 1, tm, ip, others=[kt.args["ctrl_in"], kt.args["ctrl_out"]], tq=tm - 0.5) + [delay == 0.5]
+  direct = Or(cmp("==", ns, 0), cmp("==", delay, 0))
+  want = ite(direct, kt.pre("ctrl_in", w, u), RS(w, adr, ns, tm - delay, ip))
+  P(ctx, sess, "read_ctrl_delayed/value", cmp("==", kt.post("ctrl_out", w, u), want), names=names, replay=kernel_replay(ctx, kt, loc, "value"), nice=nice1, desc="_read_ctrl_delayed_kernel: applied ctrl is not ctrl (no delay) / the history read at time - delay with the actuator's buffer, sample count and interpolation")
+  P(ctx, sess, "read_ctrl_delayed/reads-history", And(*[a[0].cell is kt.cell("history_in") for g, a in calls.all("read_scalar")]), names=names, desc="_read_ctrl_delayed_kernel reads a buffer other than Data.history")
+  w2, u2 = z3.Int("w2"), z3.Int("u2")
+  P(ctx, sess, "read_ctrl_delayed/frame", Not(kt.written("ctrl_out", w2, u2)), Or(w2 != w, u2 != u), names=names, replay=kernel_replay(ctx, kt, loc, "value"), nice=nice1, desc="_read_ctrl_delayed_kernel writes another thread's ctrl")
+  internal = (kt, w, u, ns, ip, delay, adr, tm)
+
+  # ---- public read_ctrl == internal read
+  calls2 = Calls()
+  k2 = H._read_ctrl_kernel
+  share = {l: kt.args[l] for l in ("actuator_history", "actuator_historyadr", "actuator_delay", "time_in", "history_in", "ctrl_in")}
+  uid, ipa = z3.Int("uid"), z3.Int("interp_arg")
+  kt2 = lib.kernel_thread(k2, scalars=dict(share, uid=uid, interp=ipa), tid=w, alias_inout=False, cap=10, interp_kw={"summaries": _summaries(calls2)})
+  sess2 = ctx.session(kt.bg + kt2.bg + [ns >= 0])
+  ctx.reach(sess2, "twin:read_ctrl/public", And(uid == u, ns > 0, delay > 0, ipa == -1))
+  hist2 = kt2.prev("actuator_history", uid)
+  ipv = ite(ipa < 0, hist2.c[1], ipa)
+  want2 = ite(cmp("==", hist2.c[0], 0), kt2.pre("ctrl_in", w, uid), RS(w, kt2.pre("actuator_historyadr", uid), hist2.c[0], kt2.pre("time_in", w) - kt2.pre("actuator_delay", uid), ipv))
+  loc2 = f"{mod}:_read_ctrl_kernel"
+  names2 = dict(names, uid=uid, interp_arg=ipa)
+  P(ctx, sess2, "read_ctrl/value", cmp("==", kt2.post("result_out", w), want2), uid >= 0, names=names2, replay=kernel_replay(ctx, kt2, loc2, "value"), nice=nice1 + [uid >= 0, uid <= 3, kt2.cell("result_out").shape[0] > w], desc="read_ctrl: result is not ctrl (no history) / the history read at time - delay with the requested (or model) interpolation")
+  P(ctx, sess2, "read_ctrl/equals-internal-read", cmp("==", kt2.post("result_out", w), kt.post("ctrl_out", w, u)), And(uid == u, ipa == -1, ns > 0, delay != 0), names=names2, replay=kernel_replay(ctx, kt2, loc2, "value"), nice=nice1 + [uid >= 0, uid <= 3, kt2.cell("result_out").shape[0] > w], desc="read_ctrl(time = Data.time, interp = -1) differs from the ctrl applied by fwd_actuation")
+
+  # ---- ctrl insertion
+  calls3 = Calls()
+  k3 = H._insert_ctrl_history_kernel
+  kt3 = lib.kernel_thread(k3, cap=10, interp_kw={"summaries": _summaries(calls3)})
+  w, u = kt3.tid
+  ns3 = kt3.prev("actuator_history", u).c[0]
+  sess3 = ctx.session(kt3.bg + [ns3 >= 0])
+  ctx.reach(sess3, "twin:insert_ctrl", ns3 > 0)
+  exp = [w, kt3.pre("actuator_historyadr", u), ns3, kt3.pre("time_in", w), kt3.pre("ctrl_in", w, u), kt3.args["history_out"]]
+  _call_goals(ctx, sess3, kt3, calls3, "insert_scalar", cmp("!=", ns3, 0), exp, {"w": w, "u": u, "nsample": ns3}, f"{mod}:_insert_ctrl_history_kernel", "insert_ctrl", nice=nice_kernel(kt3.cell("history_out"), w, kt3.pre("actuator_historyadr", u), ns3, 1, kt3.pre("time_in", w), others=[kt3.args["ctrl_in"]]))
+  P(ctx, sess3, "insert_ctrl/no-direct-write", And(*[not a.kind.startswith(("W", "A")) for a in kt3.it.accesses]), desc="_insert_ctrl_history_kernel writes outside the insert func")
+
+  # ---- sensor read (apply delay)
+  calls4 = Calls()
+  k4 = H._apply_sensor_delay_kernel
+  kt4 = lib.kernel_thread(k4, alias_inout=False, cap=10, interp_kw={"summaries": _summaries(calls4)})
+  w, i = kt4.tid
+  sid = kt4.pre("sensor_ids", i)
+  h4 = kt4.prev("sensor_history", sid)
+  ns4, ip4 = h4.c[0], h4.c[1]
+  dl4, dim4, sadr4, hadr4 = kt4.pre("sensor_delay", sid), kt4.pre("sensor_dim", sid), kt4.pre("sensor_adr", sid), kt4.pre("sensor_historyadr", sid)
+  per4 = kt4.prev("sensor_interval", sid).c[0]
+  t4 = kt4.pre("time_in", w)
+  user4 = kt4.pre("history_in", w, hadr4)
+  sess4 = ctx.session(kt4.bg)
+  ctx.reach(sess4, "twin:apply_sensor_delay/delay", And(ns4 > 0, dl4 > 0))
+  ctx.reach(sess4, "twin:apply_sensor_delay/interval-hold", And(ns4 > 0, dl4 <= 0, per4 > 0, user4 + per4 > t4))
+  guard = And(ns4 > 0, Or(dl4 > 0, And(per4 > 0, user4 + per4 > t4)))
+  nice4 = nice_kernel(kt4.cell("history_in"), w, hadr4, ns4, dim4, t4, ip4, others=[kt4.args["sensordata_out"]], tq=t4 - dl4) + [Or(dl4 == 0.5, dl4 == 0), Or(per4 == 0, per4 == 0.75), sid >= 0, sid <= 3, sadr4 >= 0, sadr4 <= 3]
+  exp = [sadr4, kt4.args["history_in"], w, hadr4, ns4, dim4, ite(dl4 > 0, t4 - dl4, t4), ip4, kt4.args["sensordata_out"]]
+  _call_goals(ctx, sess4, kt4, calls4, "read_vector", guard, exp, {"w": w, "sid": sid, "nsample": ns4, "delay": dl4, "period": per4, "user": user4, "time": t4}, f"{mod}:_apply_sensor_delay_kernel", "apply_sensor_delay", nice=nice4)
+  P(ctx, sess4, "apply_sensor_delay/no-direct-write", And(*[not a.kind.startswith(("W", "A")) for a in kt4.it.accesses]), desc="_apply_sensor_delay_kernel writes sensordata outside the read func")
+
+  # ---- public read_sensor == internal read
+  calls5 = Calls()
+  k5 = H._read_sensor_kernel
+  share = {l: kt4.args[l] for l in ("sensor_dim", "sensor_adr", "sensor_history", "sensor_historyadr", "sensor_delay", "time_in", "history_in")}
+  sid5, ip5 = z3.Int("sid_arg"), z3.Int("interp_arg")
+  kt5 = lib.kernel_thread(k5, scalars=dict(share, sid=sid5, interp=ip5), tid=w, alias_inout=False, cap=10, interp_kw={"summaries": _summaries(calls5)})
+  sess5 = ctx.session(kt4.bg + kt5.bg)
+  h5 = kt5.prev("sensor_history", sid5)
+  nice5 = [sid5 >= 0, sid5 <= 3, kt5.cell("result_out").shape[0] > w, kt5.cell("result_out").shape[1] >= 4, kt5.cell("sensordata_in").shape[0] > w, kt5.cell("sensordata_in").shape[1] >= 4]
+  ctx.reach(sess5, "twin:read_sensor/public", And(sid5 == sid, ns4 > 0, dl4 > 0, ip5 == -1))
+  exp5 = [0, kt5.args["history_in"], w, kt5.pre("sensor_historyadr", sid5), h5.c[0], kt5.pre("sensor_dim", sid5), kt5.pre("time_in", w) - kt5.pre("sensor_delay", sid5), ite(ip5 < 0, h5.c[1], ip5), kt5.args["result_out"]]
+  _call_goals(ctx, sess5, kt5, calls5, "read_vector", And(cmp("!=", h5.c[0], 0)), exp5, {"w": w, "sid_arg": sid5, "interp_arg": ip5}, f"{mod}:_read_sensor_kernel", "read_sensor", nice=nice4 + nice5)
+  # same source buffer / offset / count / dim / time / interpolation as the internal delayed read (destination differs)
+  for (g5, a5) in calls5.all("read_vector"):
+    for (g4, a4) in calls4.all("read_vector"):
+      same = And(*[cmp("==", x, y) for x, y in zip(a5[2:8], a4[2:8])], a5[1].cell is a4[1].cell)
+      P(ctx, sess5, "read_sensor/equals-internal-read", same, And(g5, g4, sid5 == sid, ip5 == -1, dl4 > 0), names={"w": w, "sid": sid}, replay=kernel_replay(ctx, kt5, f"{mod}:_read_sensor_kernel", "read_sensor"), nice=nice4 + nice5, desc="read_sensor(time = Data.time, interp = -1) does not read the same buffer / time / interpolation as the delayed sensor pipeline")
+  dd = z3.Int("d")
+  P(ctx, sess5, "read_sensor/no-history-copy", cmp("==", kt5.post("result_out", w, dd), kt5.pre("sensordata_in", w, kt5.pre("sensor_adr", sid5) + dd)), And(cmp("==", h5.c[0], 0), dd >= 0, dd < kt5.pre("sensor_dim", sid5), kt5.inshape("result_out", w, dd)), names={"w": w, "sid_arg": sid5, "d": dd}, replay=kernel_replay(ctx, kt5, f"{mod}:_read_sensor_kernel", "read_sensor"), nice=nice4 + nice5, desc="read_sensor without history does not return the current sensordata")
+
+  # ---- sensor insertion
+  calls6 = Calls()
+  k6 = H._insert_sensor_history_stage
+  kt6 = lib.kernel_thread(k6, cap=10, interp_kw={"summaries": _summaries(calls6)})
+  w, i = kt6.tid
+  sid = kt6.pre("sensor_ids", i)
+  ns6 = kt6.prev("sensor_history", sid).c[0]
+  hadr6 = kt6.pre("sensor_historyadr", sid)
+  per6 = kt6.prev("sensor_interval", sid).c[0]
+  t6 = kt6.pre("time_in", w)
+  user6 = kt6.pre("history_out", w, hadr6)
+  sess6 = ctx.session(kt6.bg + [ns6 >= 0])
+  ctx.reach(sess6, "twin:insert_sensor/interval-due", And(ns6 > 0, per6 > 0, user6 + per6 <= t6))
+  due = Or(per6 <= 0, user6 + per6 <= t6)
+  exp = [w, hadr6, ns6, kt6.pre("sensor_dim", sid), t6, kt6.args["sensordata_in"], kt6.pre("sensor_adr", sid), kt6.args["history_out"]]
+  nm6 = {"w": w, "sid": sid, "nsample": ns6, "period": per6, "user": user6, "time": t6}
+  nice6 = nice_kernel(kt6.cell("history_out"), w, hadr6, ns6, kt6.pre("sensor_dim", sid), t6, others=[kt6.args["sensordata_in"]]) + [Or(per6 == 0, per6 == 0.75), sid >= 0, sid <= 3, kt6.pre("sensor_adr", sid) >= 0, kt6.pre("sensor_adr", sid) <= 3]
+  _call_goals(ctx, sess6, kt6, calls6, "insert_vector", And(ns6 != 0, due), exp, nm6, f"{mod}:_insert_sensor_history_stage", "insert_sensor", nice=nice6)
+  P(ctx, sess6, "insert_sensor/user-slot", cmp("==", kt6.post("history_out", w, hadr6), ite(And(ns6 != 0, per6 > 0, user6 + per6 <= t6), user6 + per6, user6)), names=nm6, replay=kernel_replay(ctx, kt6, f"{mod}:_insert_sensor_history_stage", "insert_sensor"), nice=nice6, desc="_insert_sensor_history_stage: the user slot (time of the last accepted sample) is not advanced by exactly one period when a sample is due")
+  w2, j2 = z3.Int("w2"), z3.Int("j2")
+  P(ctx, sess6, "insert_sensor/frame", Not(kt6.written("history_out", w2, j2)), Or(w2 != w, j2 != hadr6), names=nm6, replay=kernel_replay(ctx, kt6, f"{mod}:_insert_sensor_history_stage", "insert_sensor"), nice=nice6, desc="_insert_sensor_history_stage writes history directly outside the user slot")
+
+
+# ------------------------------------------------------------------------------------------------ init_ctrl_history / init_sensor_history
+
+
+def mujoco_init_history(kind, n, dim, times, values, phase, user0):
+  """mujoco.mj_initCtrlHistory / mj_initSensorHistory on a fresh mjData -> buffer [user, cursor, times, values]"""
+  import mujoco
+
+  cfg = dict(CONFIGS["zoh-2dt"], an=n, sn=n)
+  mjm = mujoco.MjModel.from_xml_string(xml_bmc(cfg))
+  d = mujoco.MjData(mjm)
+  if kind == "ctrl":
+    adr = int(mjm.actuator_historyadr[0])
+    d.history[adr] = user0
+    mujoco.mj_initCtrlHistory(mjm, d, 0, None if times is None else np.asarray(times, dtype=float), np.asarray(values, dtype=float))
+  else:
+    adr = int(mjm.sensor_historyadr[0])
+    d.history[adr] = user0
+    mujoco.mj_initSensorHistory(mjm, d, 0, None if times is None else np.asarray(times, dtype=float), np.asarray(values, dtype=float).reshape(n, dim), phase)
+  return d.history[adr : adr + 2 + n + n * dim].copy(), mujoco.MjData(mjm).history[adr : adr + 2 + n + n * dim].copy()
+
+
+def unit_init_history(kind):
+  def run(ctx):
+    import mujoco
+
+    import mujoco_warp as mjw
+    from mujoco_warp._src import history as H
+
+    k = H._init_ctrl_history_kernel if kind == "ctrl" else H._init_sensor_history_kernel
+    loc = f"mujoco_warp._src.history:{k.key}"
+    ctx.encode(k)
+    NMAX = 3
+    ctx.bound(nsample_max=NMAX, dim_max=2, note="one generic world; sample count, dim, offsets, contents symbolic")
+    ctx.assume("nsample in [1,3], dim in [1,2]", "times = None is only legal when the stored times are strictly increasing in physical order (MuJoCo raises otherwise)")
+    # reference validated against the mujoco library: result = [user|phase, n-1, times or the EXISTING times, values]
+    rng = np.random.default_rng(7)
+    for n in (1, 2, 3):
+      for times in (None, list(np.cumsum(rng.uniform(0.1, 1, size=n)))):
+        vals = list(rng.uniform(-1, 1, size=n))
+        got, fresh = mujoco_init_history(kind, n, 1, times, vals, 0.25, 7.0)
+        want = [7.0 if kind == "ctrl" else 0.25, n - 1] + (list(fresh[2 : 2 + n]) if times is None else times) + vals
+        if not np.allclose(got, want, atol=1e-12):
+          ctx.error(f"reference for init_{kind}_history disagrees with mujoco: n={n} times={times}: mujoco {got.tolist()} reference {want}")
+          return
+    hist_l = "actuator_history" if kind == "ctrl" else "sensor_history"
+    adr_l = "actuator_historyadr" if kind == "ctrl" else "sensor_historyadr"
+    id_l = "ctrlid" if kind == "ctrl" else "sensorid"
+    ident, has = z3.Int("id"), z3.Int("has_times")
+    kt = lib.kernel_thread(k, scalars={id_l: ident, "has_times": has}, unroll=NMAX * 2 + 1, cap=12)
+    w = kt.tid
+    n = kt.prev(hist_l, ident).c[0]
+    off = kt.pre(adr_l, ident)
+    dim = kt.pre("sensor_dim_arr", ident) if kind == "sensor" else 1
+    pre = [n >= 1, n <= NMAX, ident >= 0, off >= 0] + ([dim >= 1, dim <= 2] if kind == "sensor" else [])
+    sess = ctx.session(kt.bg + pre)
+    ctx.reach(sess, "twin:with-times", And(has != 0, n == NMAX))
+    ctx.reach(sess, "twin:times-none", And(has == 0, n == NMAX))
+    names = {"w": w, "id": ident, "nsample": n, "offset": off, "has_times": has}
+    rp = init_history_replay(ctx, kind)
+    H0 = lambda j: kt.pre("history_out", w, j)
+    H1 = lambda j: kt.post("history_out", w, j)
+    ctx.prove(sess, "cursor", cmp("==", H1(off + 1), z3.ToReal(n - 1)), names=names, replay=rp, desc=f"init_{kind}_history: cursor is not nsample-1 (samples stored oldest..newest)")
+    ctx.prove(sess, "user-slot", cmp("==", H1(off), H0(off) if kind == "ctrl" else kt.pre("phase", w)), names=names, replay=rp, desc=f"init_{kind}_history: user slot is not {'preserved' if kind == 'ctrl' else 'set to phase'}")
+    i = z3.Int("i")
+    inr = And(i >= 0, i < n)
+    ctx.prove(sess, "times/given", cmp("==", H1(off + 2 + i), kt.pre("times", i)), And(inr, has != 0), names=dict(names, i=i), replay=rp, desc=f"init_{kind}_history: sample time i is not times[i]")
+    ctx.prove(sess, "times/none-keeps-existing", cmp("==", H1(off + 2 + i), H0(off + 2 + i)), And(inr, has == 0), names=dict(names, i=i), replay=rp, desc=f"init_{kind}_history(times=None): the existing buffer timestamps are not kept (MuJoCo: 'if times is NULL, uses existing buffer timestamps')")
+    if kind == "ctrl":
+      ctx.prove(sess, "values", cmp("==", H1(off + 2 + n + i), kt.pre("values", w, i)), inr, names=dict(names, i=i), replay=rp, desc="init_ctrl_history: sample value i is not values[world, i]")
+    else:
+      j = z3.Int("j")
+      ctx.prove(sess, "values", cmp("==", H1(off + 2 + n + i * dim + j), kt.pre("values", w, i * dim + j)), And(inr, j >= 0, j < dim), names=dict(names, i=i, j=j), replay=rp, desc="init_sensor_history: sample value (i, j) is not values[world, i*dim+j]")
+    w2, j2 = z3.Int("w2"), z3.Int("j2")
+    ctx.prove(sess, "frame", Not(kt.written("history_out", w2, j2)), Or(w2 != w, j2 < off, j2 >= off + 2 + n + n * dim), names=dict(names, w2=w2, j2=j2), replay=rp, desc=f"init_{kind}_history writes outside the buffer of this actuator/sensor and world")
+
+  return (f"init_history/{kind}", run)
+
+
+def init_history_replay(ctx, kind):
+  """public API vs mujoco: init_*_history(times or None) on a fresh Data, then the resulting buffers are compared"""
+
+  def _rp(model):
+    import mujoco
+
+    import mujoco_warp as mjw
+
+    rows = []
+    bad = False
+    for n in (3, 2, 1):
+      for times in (None, [0.25 * (i + 1) for i in range(n)]):
+        cfg = dict(CONFIGS["zoh-2dt"], an=n, sn=n)
+        mjm = mujoco.MjModel.from_xml_string(xml_bmc(cfg))
+        m = mjw.put_model(mjm)
+        d = mjw.put_data(mjm, mujoco.MjData(mjm))
+        vals = [1.0 + i for i in range(n)]
+        va = wp.array(np.array([vals], dtype=np.float32), dtype=float)
+        ta = None if times is None else wp.array(np.array(times, dtype=np.float32), dtype=float)
+        if kind == "ctrl":
+          adr = int(mjm.actuator_historyadr[0])
+          mjw.init_ctrl_history(m, d, 0, ta, va)
+        else:
+          adr = int(mjm.sensor_historyadr[0])
+          mjw.init_sensor_history(m, d, 0, ta, va, wp.array(np.array([0.25], dtype=np.float32), dtype=float))
+        got = d.history.numpy()[0, adr : adr + 2 + 2 * n]
+        want, _ = mujoco_init_history(kind, n, 1, times, vals, 0.25, 0.0 if kind == "ctrl" else 0.0)
+        same = bool(np.allclose(got, want, atol=1e-5))
+        rows.append({"nsample": n, "times": times, "mjwarp": got.tolist(), "mujoco": want.tolist(), "same": same})
+        bad = bad or not same
+    os.makedirs(os.path.join(report.VERIF, "replays", PID), exist_ok=True)
+    path = os.path.join(report.VERIF, "replays", PID, f"{ctx.unit.replace('/', '_')}.json")
+    with open(path, "w") as f:
+      json.dump({"property": PID, "how": f"fresh Data (put_data of a fresh mjData); mjw.init_{kind}_history(m, d, 0, times, values[, phase]) vs mujoco.mj_init{kind.capitalize()}History; buffer layout [user, cursor, times, values]", "cases": rows}, f, indent=1)
+    return bad, path
+
+  return _rp
+
+
+# ------------------------------------------------------------------------------------------------ BMC from initial buffers
+
+XML_BMC = """<mujoco><option timestep="0.002"/><worldbody>
+<body pos="0 0 1"><joint name="j" damping="0.1"/><geom size=".1"/></body></worldbody>
+<actuator><motor joint="j" delay="{adelay}" nsample="{an}" interp="{ainterp}"/></actuator>
+<sensor><jointpos joint="j" delay="{sdelay}" nsample="{sn}" interp="{sinterp}" {sint}/></sensor></mujoco>"""
+
+
+def xml_bmc(cfg):
+  return XML_BMC.format(an=cfg["an"], sn=cfg["sn"], ainterp=INTERP[cfg["ainterp"]], sinterp=INTERP[cfg["sinterp"]], adelay=cfg["adelay"], sdelay=cfg["sdelay"], sint=(f'interval="{cfg["interval"]}"' if cfg["interval"] else ""))
+
+
+PRE_CTRL = [0.7, -0.4, 0.9, 0.3, -0.8]  # controls applied before reset_data in the 'reset_data' source
+
+
+def make_source(source, cfg, nworld=2):
+  """the REAL Data whose history buffer is the initial state of the bounded check"""
+  import mujoco
+
+  import mujoco_warp as mjw
+
+  mjm = mujoco.MjModel.from_xml_string(xml_bmc(cfg))
+  m = mjw.put_model(mjm)
+  if source == "make_data":
+    d = mjw.make_data(mjm, nworld=nworld)
+  else:
+    mjd = mujoco.MjData(mjm)
+    d = mjw.put_data(mjm, mjd, nworld=nworld)
+    if source == "reset_data":
+      for u in PRE_CTRL:
+        d.ctrl.fill_(u)
+        mjw.step(m, d)
+      mjw.reset_data(m, d)
+  return mjm, m, d
+
+
+def history_order(m, d):
+  """F7: order in which the real step() launches the kernels that touch Data.history / Data.time"""
+  import mujoco_warp as mjw
+  from checks import hosttrace_c37 as T
+
+  d2 = host.shim_dataclass(d, "d.", symbolic=lambda n: False)
+  with T.TraceRun() as hr:
+    mjw.step(m, d2)
+  out = []
+  for l in hr.launches:
+    labs = [b for p, b, o in l.bound()]
+    outs = [b for p, b, o in l.bound() if o]
+    if "d.history" in labs or "d.time" in outs:
+      out.append(l.key.split("__locals__")[-1] if "_next_time" in l.key else l.key)
+  return out
+
+
+EXPECTED_ORDER = ["_apply_sensor_delay_kernel", "_insert_sensor_history_stage", "_read_ctrl_delayed_kernel", "_insert_ctrl_history_kernel", "_next_time"]
+
+
+def unit_init(source, cfgname, extra_steps=2):
+  def run(ctx):
+    import mujoco_warp as mjw
+    from mujoco_warp._src import history as H
+
+    cfg = CONFIGS[cfgname]
+    mjm, m, d = make_source(source, cfg)
+    nworld = d.nworld
+    an, sn = cfg["an"], cfg["sn"]
+    K = max(an, sn) + extra_steps
+    ctx.encode(H.read_ctrl_delayed, H.insert_ctrl_history, H.apply_sensor_delay, H._read_ctrl_delayed_kernel, H._insert_ctrl_history_kernel, H._apply_sensor_delay_kernel, H._insert_sensor_history_stage)
+    ctx.bound(nworld=nworld, steps=K, config=cfgname, source=source, note="k <= n+2 steps; ctrl and fresh sensor values symbolic per step and world, |value| <= 1; times k*timestep")
+    ctx.assume("the history-related host functions are run in the order in which the real step() launches their kernels (F7 launch trace of the real step())", "the delayed values are compared with the ideal delay line up to 1e-4 (float32 copies of MuJoCo's initial sample times)")
+    order = history_order(m, d)
+    if not set(order) <= set(EXPECTED_ORDER):
+      ctx.error(f"history-related launches of the real step() are {order}, the bounded check knows {EXPECTED_ORDER}")
+      return
+    ctx.notes.append(f"order of the history-related launches in the real step(): {order}")
+    dt = float(m.opt.timestep.numpy()[0])
+    d2 = host.shim_dataclass(d, "d.", symbolic=lambda n: False)
+    arrs = host.arrays_of(d2)
+    ctrl_c, sd_c, time_c = arrs["ctrl"].ref.cell, arrs["sensordata"].ref.cell, arrs["time"].ref.cell
+    nu, nsd = int(mjm.nu), int(mjm.nsensordata)
+    U = [[z3.Real(f"u{k}_w{w}") for w in range(nworld)] for k in range(K)]
+    Q = [[z3.Real(f"q{k}_w{w}") for w in range(nworld)] for k in range(K)]
+    got_c, got_s = [], []
+    t0 = float(d.time.numpy()[0])
+    with host.HostRun(mode="exec") as hr:
+      for k in range(K):
+        t = t0 + k * dt
+        for w in range(nworld):
+          time_c.d[0][w] = t
+          sd_c.d[0][w * nsd + 0] = Q[k][w]
+          ctrl_c.d[0][w * nu + 0] = U[k][w]
+        # the history-related operations of one step(), in the order in which the real step() launches them
+        for op in order:
+          if op == "_apply_sensor_delay_kernel":
+            H.apply_sensor_delay(m, d2, m.sensor_pos_adr)  # (launches _apply_sensor_delay_kernel, _insert_sensor_history_stage)
+            got_s.append([sd_c.d[0][w * nsd + 0] for w in range(nworld)])
+          elif op == "_read_ctrl_delayed_kernel":
+            eff = host.sym_array(f"ctrl_eff{k}", (nworld, nu), float, init=np.zeros((nworld, nu)))
+            H.read_ctrl_delayed(m, d2, eff)
+            got_c.append([eff.ref.cell.d[0][w * nu + 0] for w in range(nworld)])
+          elif op == "_insert_ctrl_history_kernel":
+            H.insert_ctrl_history(m, d2)
+          elif op == "_next_time":
+            for w in range(nworld):
+              time_c.d[0][w] = t + dt
+    # ideal delay lines, initialised as MuJoCo initialises a fresh / reset mjData
+    adelay, sdelay = float(m.actuator_delay.numpy()[0]), float(m.sensor_delay.numpy()[0])
+    interval = float(m.sensor_interval.numpy()[0][0])
+    pre = [core.zbool(a) for a in hr.assumes]
+    for k in range(K):
+      for w in range(nworld):
+        pre += [U[k][w] >= -1, U[k][w] <= 1, Q[k][w] >= -1, Q[k][w] <= 1]
+    sess = ctx.session(pre)
+    ctx.reach(sess, "twin:inputs", True)
+    tol = 1e-4
+    for w in range(nworld):
+      la = R.Line(an, 1, adelay, cfg["ainterp"], 0.0, dt, EPS)
+      ls = R.Line(sn, 1, sdelay, cfg["sinterp"], interval, dt, EPS, is_sensor=True)
+      for k in range(K):
+        t = t0 + k * dt
+        want_s = ls.sensor(t, [Q[k][w]])[0]
+        want_c = la.read_ctrl(t, U[k][w])
+        la.insert(t, [U[k][w]])
+        names = {f"u{j}": U[j][w] for j in range(K)}
+        names.update({f"q{j}": Q[j][w] for j in range(K)})
+        rp = init_replay(ctx, source, cfgname, K, U, Q, w)
+        for what, g, e in (("ctrl", got_c[k][w], want_c), ("sensor", got_s[k][w], want_s)):
+          diff = arith("-", g, e)
+          ctx.prove(sess, f"{what}@step{k}/w{w}", And(cmp("<=", diff, tol), cmp(">=", diff, -tol)), names=names, replay=rp, desc=f"Data from {source} ({cfgname}): the delayed {what} at step {k} differs from the ideal delay line initialised as MuJoCo does (samples at -(n-i)*dt with value 0)")
+
+  return (f"init/{source}/{cfgname}", run)
+
+
+def init_replay(ctx, source, cfgname, K, U, Q, w):
+  """public API vs the mujoco library: same ctrl sequence / overwritten qpos through mjw.step and mujoco.mj_step"""
+
+  def _rp(model):
+    import mujoco
+
+    import mujoco_warp as mjw
+
+    cfg = CONFIGS[cfgname]
+    us = [float(kh.mval(model, U[k][w])) for k in range(K)]
+    qs = [float(kh.mval(model, Q[k][w])) for k in range(K)]
+    mjm, m, d = make_source(source, cfg, nworld=1)
+    mjd = mujoco.MjData(mjm)
+    rows = []
+    bad = False
+    for k in range(K):
+      d.qpos.fill_(qs[k])
+      d.ctrl.fill_(us[k])
+      mjd.qpos[0], mjd.ctrl[0] = qs[k], us[k]
+      mjw.step(m, d)
+      mujoco.mj_step(mjm, mjd)
+      a = (float(d.actuator_force.numpy()[0, 0]), float(d.sensordata.numpy()[0, 0]))
+      b = (float(mjd.actuator_force[0]), float(mjd.sensordata[0]))
+      rows.append({"step": k, "mjwarp": a, "mujoco": b})
+      if abs(a[0] - b[0]) > 1e-4 or abs(a[1] - b[1]) > 1e-4:
+        bad = True
+    os.makedirs(os.path.join(report.VERIF, "replays", PID), exist_ok=True)
+    path = os.path.join(report.VERIF, "replays", PID, f"{ctx.unit.replace('/', '_')}.json")
+    with open(path, "w") as f:
+      json.dump({"property": PID, "source": source, "xml": xml_bmc(cfg), "ctrl": us, "qpos_overwritten": qs, "trajectory (actuator_force = delayed ctrl, sensordata[0])": rows, "how": f"Data from {source} (reset_data: put_data, {len(PRE_CTRL)} steps with ctrl {PRE_CTRL}, reset_data); each step: set qpos, ctrl; mjw.step vs mujoco.mj_step"}, f, indent=1)
+    return bad, path
+
+  return _rp
+
+
+def _patch_mval():
+  """engine workaround: kh.mval overflows on rationals whose numerator/denominator exceed the float range"""
+  import fractions
+
+  orig = kh.mval
+  if getattr(orig, "_c30", False):
+    return
+
+  def mval(model, x):
+    try:
+      return orig(model, x)
+    except OverflowError:
+      v = model.eval(x, model_completion=True)
+      return float(fractions.Fraction(v.numerator_as_long(), v.denominator_as_long()))
+
+  mval._c30 = True
+  kh.mval = mval
+
+
 def main(tier, seed, only=None):
+  import sys
+
+  sys.set_int_max_str_digits(0)  # z3 models of nonlinear queries can carry rationals with thousands of digits
+  _patch_mval()
+  import mujoco  # noqa: F401  (imported before the units fork: saves ~15 s of import time per unit)
+
+  import mujoco_warp  # noqa: F401
+
   ns = (1, 2, 3, 4) if tier == "thorough" else (1, 2, 3)
-  units = [("refmodel", unit_refmodel)]
+  units = [("refmodel", unit_refmodel), ("kernels", unit_kernels), unit_init_history("ctrl"), unit_init_history("sensor")]
   for n in ns:
     units.append(unit_find(n))
     units.append(unit_read(n, 0))
@@ -505,6 +1200,11 @@ def main(tier, seed, only=None):
     for dim in (1, 2) if tier == "quick" else (1, 2, 3):
       units.append(unit_read(n, dim))
       units.append(unit_insert(n, dim))
+  for source in ("put_data", "make_data", "reset_data"):
+    for cfgname in CONFIGS:
+      if tier == "quick" and source != "put_data" and cfgname not in ("zoh-2dt", "interval"):
+        continue  # make_data / reset_data are listed findings: two configurations suffice in the quick tier
+      units.append(unit_init(source, cfgname, 2 if tier == "quick" else 3))
   if only:
     units = [u for u in units if any(o in u[0] for o in only)]
   return report.run_check(PID, units, tier, seed)
